@@ -159,11 +159,28 @@ def run_case(case, rng):
         from mon import defaults as Dflt
         okw, _om = Dflt.rely_on_defaults(case, rng, "PlanToSubgoalOption", dict(include_mdp_absorbing_states=inc, name="sg",
                                                                                max_nonterminal_pseudoreward=clip))
-        opt = PlanToSubgoalOption(mdp=mdp, initial_states=inits, subgoals=subgoals,
-                                  planner=ValueIteration(max_residual=1e-10, max_iterations=3000), **okw)
+        extra_terminal = [s_ for s_ in S if s_ not in subgoals]
+        OptCls = PlanToSubgoalOption
+        door = None
+        if extra_terminal and rng.random() < 0.3:
+            door = rng.choice(extra_terminal)
+
+            class Doorway(PlanToSubgoalOption):          # also stops at one more state: the public hook is_terminal says so
+                def is_terminal(self_, s_):
+                    return s_ == door or PlanToSubgoalOption.is_terminal(self_, s_)
+            OptCls = Doorway
+            case.count("option_subclasses_overriding_is_terminal")
+        opt = OptCls(mdp=mdp, initial_states=inits, subgoals=subgoals,
+                     planner=ValueIteration(max_residual=1e-10, max_iterations=3000), **okw)
         Dflt.in_force(case, "PlanToSubgoalOption", opt, passed=okw)
         f3 = dict(facts, clip=clip, include_abs=inc)
         st = case.call("sub_task", lambda: opt.sub_task, facts=f3)
+        if st is not case.FAIL and door is not None:
+            # the sub-task ends exactly where the option says it is terminal
+            bad_t = [s_ for s_ in S if bool(st.is_absorbing(s_)) != bool(opt.is_terminal(s_) or (inc and s_ in sp.flag))]
+            case.check(not bad_t, "subtask:absorbing-states-differ-from-the-option's-is_terminal",
+                       lambda: f"{bad_t!r} (option also stops at {door!r})", component="is_absorbing", **f3)
+            st = case.FAIL          # (the reference sub-task below knows nothing of the extra terminal state)
         if st is not case.FAIL:
             case.check(st.discount_rate == gamma, "subtask:discount_rate-differs",
                        f"sub_task.discount_rate={st.discount_rate!r} base={gamma!r}", component="discount_rate", **f3)
